@@ -12,7 +12,7 @@ RULE = ("one evaluation = one history of 6-20 events over {message A->X, message
 ASSUMPTIONS = ["a reinstall is a fresh key store for the same phone number; the server double drops the old installation's one-time keys when the new identity is uploaded",
                "with automatic trust on the library resumes through the retry path: resumption is judged at quiescence, not on the first stanza",
                "histories are sampled"]
-REQUIRED = ["busy_restarts", "histories", "checkpoints", "identity_changes_after_pin", "refusals_incoming", "refusals_outgoing", "autotrust_replacements",
+REQUIRED = ["other_accounts_with_autotrust", "builder_assembled_histories", "busy_restarts", "histories", "checkpoints", "identity_changes_after_pin", "refusals_incoming", "refusals_outgoing", "autotrust_replacements",
             "restarts_between_pin_and_change", "autotrust:on", "autotrust:off", "group_messages"]
 TIMEOUT = {"quick": 600, "thorough": 7200}
 
@@ -33,10 +33,21 @@ def one_history(acc, seed, tag):
     A, X, B = "4911" + gen.s_from(r, gen.DIGITS, 7), "4922" + gen.s_from(r, gen.DIGITS, 7), "4933" + gen.s_from(r, gen.DIGITS, 7)
     phones = [A, X] + ([B] if three else [])
     # the option is only set when the application switches it on: the default must be "off"
-    W.add_client(A, props={PROP_IDENTITY_AUTOTRUST: True} if autotrust else {})
-    W.add_client(X)
-    if three:
-        W.add_client(B)
+    # (the other accounts of this process may have the option on when A has not, stacks are assembled in any order, and in half of
+    # the histories through the library's builder: one account's options are its own)
+    W.builder_assembly = r.random() < 0.5
+    others_auto = (not autotrust) and r.random() < 0.6
+    order_ = list(phones)
+    r.shuffle(order_)
+    for p_ in order_:
+        if p_ == A:
+            W.add_client(A, props={PROP_IDENTITY_AUTOTRUST: True} if autotrust else {})
+        else:
+            W.add_client(p_, props={PROP_IDENTITY_AUTOTRUST: True} if others_auto else {})
+    if others_auto:
+        acc.count("other_accounts_with_autotrust")
+    if W.builder_assembly:
+        acc.count("builder_assembled_histories")
     G = "%s-1500000000@g.us" % A
     W.server.groups[G] = {"participants": ["%s@s.whatsapp.net" % p for p in phones], "subject": "G", "creator": "%s@s.whatsapp.net" % A}
     n = r.randint(6, 20)
